@@ -1,5 +1,105 @@
-(* C11 property theorems (placeholder until the substitution development lands). *)
-From DD Require Import Model.Subst.
-Theorem remove_id_nil : forall i, remove_id [] i = [].
-Proof. reflexivity. Qed.
-Print Assumptions remove_id_nil.
+(* C11 property theorems: the explicit-stack loop of substitute computes the
+   structural function within linear fuel; untouched subtrees are returned as
+   the identical node; token-level exactness; introduce_variables / apply_simp.
+   Proofs (and the definitions clean, toks, spec_toks, subnodes_l) are in
+   Proofs/Subst. *)
+From DD Require Import Model.Subst Spec.StdReader.
+From DD Require Import Proofs.Subst.SubstBase Proofs.Subst.SubstMachine
+  Proofs.Subst.SubstIdentity Proofs.Subst.SubstTokens Proofs.Subst.SubstClosed
+  Proofs.Subst.IntroVars.
+
+Local Open Scope Z_scope.
+
+(* S1 *)
+Theorem subst_refines : forall hstr htup l ri rs next,
+  substitute_sm hstr htup (2 * nsizes l + 2) l ri rs next
+  = Some (substitute hstr htup l ri rs next).
+Proof. exact subst_refines_proof. Qed.
+Print Assumptions subst_refines.
+
+Theorem subst_refines_ge : forall hstr htup fuel l ri rs next,
+  (2 * nsizes l + 2 <= fuel)%nat ->
+  substitute_sm hstr htup fuel l ri rs next = Some (substitute hstr htup l ri rs next).
+Proof. exact subst_refines_ge_proof. Qed.
+Print Assumptions subst_refines_ge.
+
+(* S2 *)
+Theorem subst_identity : forall hstr htup rs e st,
+  clean hstr (s_ri st) rs e -> hash_ok hstr htup e = true ->
+  fst (subst1 hstr htup rs e st) = [e] /\
+  s_ri (snd (subst1 hstr htup rs e st)) = s_ri st /\
+  s_changed (snd (subst1 hstr htup rs e st)) = s_changed st.
+Proof. exact subst_identity_proof. Qed.
+Print Assumptions subst_identity.
+
+(* S3 *)
+Theorem subst_unchanged : forall hstr htup l ri rs next,
+  (forall e, In e l -> clean hstr ri rs e) -> forallb (hash_ok hstr htup) l = true ->
+  fst (fst (substitute hstr htup l ri rs next)) = false /\
+  snd (fst (substitute hstr htup l ri rs next)) = l.
+Proof. exact subst_unchanged_proof. Qed.
+Print Assumptions subst_unchanged.
+
+(* the same without the hypothesis on the cached hashes *)
+Theorem subst_unchanged_nohash : forall hstr htup l ri rs next,
+  (forall e, In e l -> clean hstr ri rs e) ->
+  fst (fst (substitute hstr htup l ri rs next)) = false /\
+  snd (fst (substitute hstr htup l ri rs next)) = l.
+Proof. exact subst_unchanged_nohash_proof. Qed.
+Print Assumptions subst_unchanged_nohash.
+
+(* The variant with the unrestricted hypothesis (node_eq implies equal shape for ALL pairs)
+   is vacuous (see node_eq_unrestricted_unsound in Proofs/Subst/SubstTokens.v) and is
+   deliberately not listed here. *)
+
+(* S4 with node_eq assumed sound only on the pairs (rebuilt tuple, original
+   tuple) that arise: the tuple is a node of the input, its children have been
+   processed from a state whose identity map is included in the given one and
+   whose allocator is not below the initial one *)
+Theorem subst_tokens_strong : forall hstr htup l ri rs next,
+  NoDup (ids_l l) ->
+  (forall i h cl st, In (NT i h cl) (subnodes_l l) ->
+     incl (s_ri st) ri -> next <= s_next st ->
+     node_eq hstr
+       (fst (mk_tuple hstr htup (s_next (snd (subst_list hstr htup rs cl st)))
+                      (fst (subst_list hstr htup rs cl st))))
+       (NT i h cl) = true ->
+     shape (fst (mk_tuple hstr htup (s_next (snd (subst_list hstr htup rs cl st)))
+                          (fst (subst_list hstr htup rs cl st))))
+       = shape (NT i h cl)) ->
+  flat_map toks (snd (fst (substitute hstr htup l ri rs next)))
+  = flat_map (spec_toks hstr ri rs) l.
+Proof. exact subst_tokens_strong_proof. Qed.
+Print Assumptions subst_tokens_strong.
+
+(* S4 without a hypothesis on node_eq: identities of the input are distinct and
+   not above the allocator, and a node of a replacement value (vals_i, vals_s)
+   that shares its identity with a node of the input has the same shape *)
+Theorem subst_tokens_closed : forall hstr htup l ri rs next,
+  NoDup (ids_l l) ->
+  (forall j, In j (ids_l l) -> j <= next) ->
+  (forall v x y, In v (vals_i ri ++ vals_s rs) -> In x (subnodes v) -> In y (subnodes_l l) ->
+                 nid x = nid y -> shape x = shape y) ->
+  flat_map toks (snd (fst (substitute hstr htup l ri rs next)))
+  = flat_map (spec_toks hstr ri rs) l.
+Proof. exact subst_tokens_closed_proof. Qed.
+Print Assumptions subst_tokens_closed.
+
+(* S5 *)
+Theorem introduce_variables_spec : forall l vars,
+  exists pre post,
+    l = pre ++ post /\
+    introduce_variables l vars = pre ++ vars ++ post /\
+    forallb is_prefix_cmd pre = true /\
+    match post with x :: _ => is_prefix_cmd x = false | [] => True end.
+Proof. exact introduce_variables_spec_proof. Qed.
+Print Assumptions introduce_variables_spec.
+
+Theorem apply_simp_spec : forall hstr htup l ri rs vars next ch r nx,
+  substitute hstr htup l ri rs next = (ch, r, nx) ->
+  apply_simp hstr htup l ri rs vars next =
+    (if ch then (true, match vars with [] => r | _ => introduce_variables r vars end, nx)
+     else (false, l, nx)) /\
+  (ch = false -> r = l).
+Proof. exact apply_simp_spec_proof. Qed.
+Print Assumptions apply_simp_spec.
